@@ -385,7 +385,19 @@ namespace
                 for (std::size_t k = 0; k < s.rcount[i]; ++k)
                     if (!std::isfinite(s.w(i, k)))
                     {
-                        ++ctx.rep.skipped;  // attributed to C05, not judged here
+                        // a non-finite partition fraction is C05's finding; what C03 states is
+                        // still decidable: the accumulated values must be finite and conserve
+                        // the source, which they cannot with such a weight
+                        arr_t a1 = fg.accumulate(1.0);
+                        ++ctx.rep.ops;
+                        for (std::size_t q = 0; q < n; ++q)
+                            if (!std::isfinite(a1.flat(q)))
+                            {
+                                f.push_back({ "non-finite-accumulation", "node " + node_s(q) + " accumulate(1) = " + hexd(a1.flat(q))
+                                                                             + " (partition weight of node " + node_s(i) + " is not finite)" });
+                                return;
+                            }
+                        ++ctx.rep.skipped;
                         return;
                     }
             std::vector<double> area(n);
@@ -472,13 +484,13 @@ namespace
                 long double total_src = 0, total_mag = 0, total_term = 0;
                 for (std::size_t i = 0; i < n; ++i)
                 {
-                    if (std::fabs(static_cast<long double>(acc[i]) - expect[i]) > 64 * eps * mag[i] + 1e-300L)
+                    if (!(std::fabs(static_cast<long double>(acc[i]) - expect[i]) <= 64 * eps * mag[i] + 1e-300L))
                     {
                         f.push_back({ "local-balance", "node " + node_s(i) + " accumulated " + hexd(acc[i])
                                                            + " expected " + hexd(static_cast<double>(expect[i])) });
                         break;
                     }
-                    if (nonneg && acc[i] < src[i] * area[i])
+                    if (nonneg && !(acc[i] >= src[i] * area[i]))
                     {
                         f.push_back({ "below-local-contribution", "node " + node_s(i) });
                         break;
@@ -488,7 +500,7 @@ namespace
                     if (s.rcount[i] == 1 && s.r(i, 0) == i)
                         total_term += acc[i];
                 }
-                if (std::fabs(total_term - total_src) > 1e-9L * (total_mag + 1e-300L) * static_cast<long double>(n))
+                if (!(std::fabs(total_term - total_src) <= 1e-9L * (total_mag + 1e-300L) * static_cast<long double>(n)))
                     f.push_back({ "not-conserved", "sum over terminal nodes " + hexd(static_cast<double>(total_term))
                                                        + " source integral " + hexd(static_cast<double>(total_src)) });
                 if (has_donor && q == 4)
